@@ -42,6 +42,11 @@ def check(ctx):
                    f"{n}: the fill loop is reachable only for non-milestone leaf tasks", floor=1)
         ctx.guarded(o, lambda o, ps=ps: only_leaves(ctx, o, ps))
 
+        o = ctx.ob(f'{n}_each_task_scheduled_once', 'R5',
+                   f"{n}: a task already in the memo is never scheduled again (entry test of the pass, or a memo guard at every call "
+                   f"site including calc's root loop), and the pass records every task it schedules", floor=2)
+        ctx.guarded(o, lambda o, ps=ps: sched_fill.scheduled_once(ctx, o, ps))
+
         o = ctx.ob(f'{n}_fraction_selector', 'R11',
                    f"{n}: every ledger query (search, fill, post-loop date fraction) uses the balancing selector, so dates and "
                    f"reservations refer to the same bookings", floor=3)
@@ -50,6 +55,11 @@ def check(ctx):
         o = ctx.ob(f'{n}_dates_encode_reservations', 'R8',
                    f"{n}: computed start/end are day + booked share of that day (same resource/day/selector as the reservations)", floor=2)
         ctx.guarded(o, lambda o, ps=ps: sched_fill.encoding(ctx, o, ps))
+
+    # what is reserved is measured against the capacity the resource reports: it must be the calendar's answer for the date asked,
+    # not a remembered one (C17's obligation, reused as in C08/C09)
+    from . import c17 as _c17
+    _c17._none_zero(ctx)
 
     psf = PassShape(ctx, FWD)
     o = ctx.ob('forward_first_day_and_today', 'R8',
@@ -126,7 +136,7 @@ def remaining(ctx, o, ps: PassShape):
                     continue
                 stn = ps.cfg.node_of(st)
                 # the None-test (and with it the fill) precedes the subtraction on every path
-                tests = [t for t, p in ps.cfg.conditions(stn) if match(f"{ps.task}.{attr} is None", t)]
+                tests = [t for t, p in ps.cfg.conditions(stn) if any(match(f"{ps.task}.{attr} is None", x) for x in ast.walk(t))]
                 tn = ps.cfg.node_containing(tests[0]) if tests else None
                 if tn is None or not ps.cfg.dominates(tn, cn):
                     o.refute(ps.f, st, st, f"the default {attr} is not filled in before the remaining work is computed")
@@ -172,6 +182,25 @@ def backward_start(ctx, o, ps: PassShape):
             fc = [a for a in args if isinstance(a, ast.Call) and isinstance(a.func, ast.Attribute) and unmangle(a.func.attr) == fill.name]
             rest = [a for a in args if a not in fc]
             where = (" when " + ", ".join(facts.cond_texts(conds))) if conds else ""
+            if match(f"{ps.task}.start", case) and conds:
+                # `task.start if task.start < <fill result> else <fill result>`: the user start is kept only where it is the smaller one
+                atoms = []
+                for t_, p_ in conds:
+                    atoms += facts.split_conj(t_, p_)
+
+                def is_fill(x):
+                    return isinstance(x, ast.Call) and isinstance(x.func, ast.Attribute) and unmangle(x.func.attr) == fill.name
+                smaller = False
+                for a_, p_ in atoms:
+                    if isinstance(a_, ast.Compare) and len(a_.ops) == 1:
+                        l_, r_, op_ = a_.left, a_.comparators[0], a_.ops[0]
+                        if match(f"{ps.task}.start", l_) and is_fill(r_) and ((isinstance(op_, (ast.Lt, ast.LtE)) and p_) or (isinstance(op_, (ast.Gt, ast.GtE)) and not p_)):
+                            smaller = True
+                        if match(f"{ps.task}.start", r_) and is_fill(l_) and ((isinstance(op_, (ast.Gt, ast.GtE)) and p_) or (isinstance(op_, (ast.Lt, ast.LtE)) and not p_)):
+                            smaller = True
+                if smaller:
+                    o.site(ps.f, st, f"start keeps the user-fixed start{where} (the smaller of the two)")
+                    continue
             if len(fc) != 1 and sched_fill._unresolved(ps.f, case):
                 o.undecided(ps.f, st, st, f"the start of a leaf is `{src(case)[:80]}`{where}, which contains a term the rule cannot resolve")
             elif len(fc) != 1:
